@@ -344,7 +344,8 @@ def run_gen(ctx, spec):
             for nm, v in true_inst.items():
                 if rng.random() < 0.5:
                     inst_in[nm] = S.to_repo_term(v)
-        pat_t, tgt_t = S.to_repo_term(pat), S.to_repo_term(target)
+        pat_t = S.to_repo_term(pat)
+        tgt_t = S.to_repo_term(target, {} if rng.random() < 0.5 else None)      # equal sub-terms as ONE object
         before = ctx.counters['successes_judged']
         try:
             matcher.first_order_match(pat_t, tgt_t, inst_in)
@@ -389,6 +390,20 @@ def hostile(ctx, rng, matcher):
     except Exception:
         pass
     ctx.case(('hostile', p, t), nontrivial=True)
+    # pattern  k ?a (?G ?a)  against  k x (g2 (P x) (%y. h2 (P x) y))  with (P x) ONE object at depths 0 and 1
+    Pv = ('var', 'P', S.fun(a, a))
+    hv = ('var', 'h2', S.funs(a, a, b))
+    gg = ('var', 'g3', S.funs(a, S.fun(a, b), b))
+    kk = ('var', 'k', S.funs(a, b, b))
+    xa = ('var', 'x', a)
+    px = ('comb', Pv, xa)
+    tgt = S.mk_comb(kk, xa, S.mk_comb(gg, px, ('abs', 'y', a, S.mk_comb(hv, px, ('bound', 0)))))
+    patt = S.mk_comb(kk, ('svar', 'a', a), ('comb', ('svar', 'G', S.fun(a, b)), ('svar', 'a', a)))
+    try:
+        matcher.first_order_match(S.to_repo_term(patt), S.to_repo_term(tgt, {}))
+    except Exception:
+        pass
+    ctx.case(('hostile-shared', patt, tgt), nontrivial=True)
 
 
 def run_lib(ctx, spec):
